@@ -3,6 +3,7 @@ package rules
 import (
 	"fmt"
 	"go/ast"
+	"go/constant"
 	"go/token"
 	"go/types"
 	"sort"
@@ -216,9 +217,8 @@ var indexConfirmed = map[string]map[indexClass]int{
 	"(*fileDecorator).fragment": {"var": 3},
 	// endFrags[0:len-1] and endFrags[len-1] under len(endFrags) > 0
 	"(*fileDecorator).link": {"var": 1, "const": 1, "last": 1},
-	// (f.fragments[i], f.fragments[from], f.fragments[from-1] are proven by loopBounded)
-	// frags[stage] on a [2] array with stage ∈ {0, 1}
-	"(*fileDecorator).findIndentedComments": {"var": 6},
+	// (f.fragments[i], f.fragments[from], f.fragments[from-1] are proven by loopBounded;
+	// frags[stage] / indents[stage] on [2] arrays with stage ∈ {0, 1} by constBoundedIndex)
 	// decs[len(decs)-1] under len(decs) > 0
 	"appendNewLine": {"last": 1},
 	// v[len(v)-1] after `if len(v) == 0 { continue }`
@@ -361,6 +361,9 @@ func (e *Env) RIndex() {
 					}
 					if loopBounded(info, fd, x) {
 						return true // proven by the enclosing loop's condition
+					}
+					if constBoundedIndex(info, fd, x) {
+						return true // array indexed by a variable that only ever holds in-range constants
 					}
 					add("var", x.Pos(), x)
 				}
@@ -749,4 +752,89 @@ func nonNegParam(info *types.Info, fd *ast.FuncDecl, p types.Object) bool {
 		})
 	}
 	return calls > 0 && good
+}
+
+// constBoundedIndex: A[v] with A of array type [N]T (or *[N]T) and v an int variable whose every
+// write in the function is a constant in [0, N) (a declaration without value counts as 0; no
+// ++/--, no op-assignment, address not taken).
+func constBoundedIndex(info *types.Info, fd *ast.FuncDecl, x *ast.IndexExpr) bool {
+	t := info.TypeOf(x.X)
+	if t == nil {
+		return false
+	}
+	if p, ok := t.Underlying().(*types.Pointer); ok {
+		t = p.Elem()
+	}
+	arr, ok := t.Underlying().(*types.Array)
+	if !ok {
+		return false
+	}
+	id, ok := ast.Unparen(x.Index).(*ast.Ident)
+	if !ok {
+		return false
+	}
+	v, ok := info.Uses[id].(*types.Var)
+	if !ok || v.IsField() {
+		return false
+	}
+	// parameters are not bounded
+	if fd.Type.Params != nil {
+		for _, p := range fd.Type.Params.List {
+			for _, nm := range p.Names {
+				if info.Defs[nm] == types.Object(v) {
+					return false
+				}
+			}
+		}
+	}
+	good, seen := true, false
+	inRange := func(e ast.Expr) bool {
+		tv, ok := info.Types[e]
+		if !ok || tv.Value == nil {
+			return false
+		}
+		n, exact := constant.Int64Val(tv.Value)
+		return exact && n >= 0 && n < arr.Len()
+	}
+	ast.Inspect(fd.Body, func(n ast.Node) bool {
+		switch s := n.(type) {
+		case *ast.ValueSpec:
+			for i, nm := range s.Names {
+				if info.Defs[nm] != types.Object(v) {
+					continue
+				}
+				seen = true
+				if i < len(s.Values) && !inRange(s.Values[i]) {
+					good = false
+				}
+			}
+		case *ast.AssignStmt:
+			for i, l := range s.Lhs {
+				lid, ok := l.(*ast.Ident)
+				if !ok || (info.Defs[lid] != types.Object(v) && info.Uses[lid] != types.Object(v)) {
+					continue
+				}
+				seen = true
+				if (s.Tok != token.ASSIGN && s.Tok != token.DEFINE) || len(s.Lhs) != len(s.Rhs) || !inRange(s.Rhs[i]) {
+					good = false
+				}
+			}
+		case *ast.IncDecStmt:
+			if lid, ok := s.X.(*ast.Ident); ok && info.Uses[lid] == types.Object(v) {
+				good = false
+			}
+		case *ast.UnaryExpr:
+			if lid, ok := s.X.(*ast.Ident); ok && s.Op == token.AND && info.Uses[lid] == types.Object(v) {
+				good = false
+			}
+		case *ast.RangeStmt:
+			for _, kv := range []ast.Expr{s.Key, s.Value} {
+				if lid, ok := kv.(*ast.Ident); ok && (info.Defs[lid] == types.Object(v) || info.Uses[lid] == types.Object(v)) {
+					good = false
+				}
+			}
+		}
+		return true
+	})
+	return good && seen
 }
